@@ -335,7 +335,7 @@ def note_bytes(enc, typ, name, desc):
     return b
 
 
-def build(cls, enc, secs, segs, rng=None, hdr=None, tables_first=False, addr_from_offset=None):
+def build(cls, enc, secs, segs, rng=None, hdr=None, tables_first=False, addr_from_offset=None, table_order=None):
     """Serialise sections (dicts: sname,type,flags,addr,data|None,size,link,info,addralign,entsize) laid out
     sequentially after the program header table; section header table last.  segs: dicts with type, flags,
     align and either 'cover': [section indices] or explicit offset/vaddr/filesz/memsz."""
@@ -391,9 +391,24 @@ def build(cls, enc, secs, segs, rng=None, hdr=None, tables_first=False, addr_fro
                 g["offset"] = min(s["offset"] for s in al)
             g["paddr"] = g["vaddr"]
         outsegs.append(g)
+    shstrndx = len(secs) - 1
+    if table_order is not None:
+        # the section header table lists the sections in another order than the one they are laid out in
+        # (table_order[k] = laid-out position of the section at table position k; position 0 stays):
+        # references between sections (sh_link; sh_info of relocation sections) and e_shstrndx follow
+        perm = [0] + [i for i in table_order if 0 < i < len(secs) - 1] + [len(secs) - 1]
+        assert sorted(perm) == list(range(len(secs)))
+        inv = {i: k for k, i in enumerate(perm)}
+        for s_ in secs:
+            if 0 < s_["link"] < len(secs):
+                s_["link"] = inv[s_["link"]]
+            if s_["type"] in (4, 9) and 0 < s_["info"] < len(secs):
+                s_["info"] = inv[s_["info"]]
+        secs = [secs[i] for i in perm]
+        shstrndx = inv[shstrndx]
     im.hdr = dict(type=2, machine=62 if cls == "64" else 3, version=1, entry=0x1000, phoff=EHSIZE[cls] if segs else 0, shoff=shoff,
                   flags=0, ehsize=EHSIZE[cls], phentsize=PHSIZE[cls], phnum=len(segs), shentsize=SHSIZE[cls], shnum=len(secs),
-                  shstrndx=len(secs) - 1)
+                  shstrndx=shstrndx)
     if hdr:
         im.hdr.update(hdr)
     e = E(enc)
@@ -415,7 +430,7 @@ def build(cls, enc, secs, segs, rng=None, hdr=None, tables_first=False, addr_fro
     return im, b
 
 
-def rich_image(rng, cls, enc, nsym=None, tables_first=False, simple_segments=False):
+def rich_image(rng, cls, enc, nsym=None, tables_first=False, simple_segments=False, table_shuffle=False):
     """An image with the table kinds the accessors read: symbols (+SysV/GNU hash), relocations, dynamic,
     notes, modinfo, arrays, version tables."""
     e = E(enc)
@@ -542,7 +557,15 @@ def rich_image(rng, cls, enc, nsym=None, tables_first=False, simple_segments=Fal
         rng.shuffle(segs)
     else:
         segs = segs + nested
-    return build(cls, enc, secs, segs, rng, tables_first=tables_first, addr_from_offset=0x10000)
+    table_order = None
+    if table_shuffle and len(groups) >= 2:
+        # the section header table lists the loadable groups in another order than their addresses (a linker script
+        # placing a low-address region late): order inside each group kept, the other sections behind
+        gs = [list(g) for g in groups]
+        while gs == [list(g) for g in groups]:
+            rng.shuffle(gs)
+        table_order = [i for g in gs for i in g] + [idx[n] for n in order[n_alloc:]]
+    return build(cls, enc, secs, segs, rng, tables_first=tables_first, addr_from_offset=0x10000, table_order=table_order)
 
 
 # ------------------------------------------------------------------ structure-aware corruption
